@@ -349,7 +349,12 @@ func (g *gen) signed(name, kind string, b *schema.Builder, second bool) *node {
 	g.ensureKey(id, sname)
 	d := g.nextDate()
 	b.SetClaimDate(d)
-	tb := id.MustSign(b, d)
+	// one claim in five comes from a serializer that puts whitespace in front of "camliVersion"
+	style := 0
+	if g.t != nil && rapid.IntRange(0, 4).Draw(g.t, "foreignSerializer") == 0 {
+		style = rapid.IntRange(1, vsign.NumLeadStyles-1).Draw(g.t, "leadStyle")
+	}
+	tb := id.SignStyled(b, d, style)
 	return g.w.add(&node{Name: name, Kind: kind, data: []byte(tb.Contents), Signer: sname})
 }
 
